@@ -10,6 +10,7 @@ CONSTANTS
   B = 2  TXMax = 2
   Inline = TRUE  BatchTX = TRUE  Drops = FALSE
   ScrubTxLen = TRUE  ResetRawSA = TRUE  BothOnHandoff = FALSE
+  ResetSlot = TRUE  Opts <- ONone
 SPECIFICATION Spec
 SYMMETRY SymClients
 INVARIANTS TypeOK SingleOwner ReleaseOnce ReplyIsOwn SilentStaysSilent AtMostOneSend LeaseBound QuiescedIff BurstBound HandoffClean FreeIsScrubbed
